@@ -2201,7 +2201,12 @@ lyd_diff_reverse_value(struct lyd_node *node, const struct lys_module *mod)
         LY_CHECK_GOTO(ret = lyd_any_copy_value(node, &anyval, LYD_ANYDATA_STRING), cleanup);
     }
     node->flags = flags;
-    LY_CHECK_GOTO(ret = lyd_change_meta(meta, val2), cleanup);
+    ret = lyd_change_meta(meta, val2);
+    if (ret == LY_ENOT) {
+        /* another representation of the same anydata value, the metadata does not change */
+        ret = LY_SUCCESS;
+    }
+    LY_CHECK_GOTO(ret, cleanup);
 
 cleanup:
     free(val2);
